@@ -3,7 +3,9 @@
    (Model/Listener.v), (c) the Dialer's re-establish / give-up policy and back-off
    (Properties/C10dial.v, Model/Dialer.v). *)
 From Coq Require Import Lia.
-From CR Require Import Model.Group Proofs.Group Model.Listener Proofs.Listener Model.Teardown gen.ExtGroup.
+From CR Require Import Model.Group Proofs.Group Model.Listener Proofs.Listener Model.Teardown gen.ExtGroup gen.ExtAdvertise.
+From Coq Require Import List.
+Import ListNotations.
 (* send workers against the scheduler's stop: the step relation is chosen by the extracted shape of start() / stop(): Properties/Workers.v *)
 From CR Require Properties.Workers.
 (* (c): the dialer clauses C10_constants, C10_delay_literal, C10_trace_is_chunks, C10_backoff, C10_attempts,
@@ -69,6 +71,19 @@ Theorem C10_reaction : forall f,
             | _ => ReturnErr end.
 Proof. destruct f; reflexivity. Qed.
 
+(* the same policy for the FIRST transmission of a connection, the initial RA that Run sends before anything else
+   starts: Run hands its error to the Dialer wrapped with %w (extracted), so the Dialer classifies it exactly like the
+   error of a scheduled transmission; wrapped with %v (as the code did before fix cdd17fb) every failure is final *)
+Definition initial_reaction (wrapped : bool) (f : fault) : reaction := if wrapped then react f else ReturnErr.
+
+Theorem C10_initial_policy : forall f, In f [FWriteSyscall; FWritePerm; FWriteOther] ->
+  initial_reaction initial_send_error_wrapped f = react f.
+Proof. intros f _. reflexivity. Qed.
+
+Theorem C10_initial_legacy_refuted :
+  initial_reaction false FWriteSyscall = ReturnErr /\ react FWriteSyscall = Redial.
+Proof. split; reflexivity. Qed.
+
 (* ---- (b) receive retry: timeouts are retried with waits 0, 50, 100, 150 ms; the 5th consecutive
    one (after a 200 ms wait) is an error; any received message resets the count *)
 Local Open Scope Z_scope.
@@ -111,3 +126,5 @@ Print Assumptions C10dial.C10_policy.
 Print Assumptions C10dial.C10_policy_classes.
 Print Assumptions C10dial.C10_cancel_partial.
 Print Assumptions C10dial.C10_cancel.
+Print Assumptions C10_initial_policy.
+Print Assumptions C10_initial_legacy_refuted.
